@@ -3,4 +3,5 @@ pub mod g01;
 pub mod g02;
 pub mod g05;
 pub mod g14;
+pub mod g15;
 pub mod templates;
